@@ -22,7 +22,13 @@ for d in sorted(glob.glob(os.path.join(HERE, 'benign', 'C*-*'))):
         if last and ' 0 refuted' in last[-1] and ' 0 undecided' in last[-1]:
             return 'green'
         return '?'
-    for lg in sorted(glob.glob(os.path.join(d, 'check_*.log'))):
+    logs = sorted(glob.glob(os.path.join(d, 'check_*.log')))
+    for fl in [x for x in logs if x.endswith('.first.log')]:
+        if fl[:-len('.first.log')] + '.log' not in logs:      # only the first verdict is on file (the re-evaluation log was discarded)
+            pid = re.search(r'check_(\w+)\.first\.log', fl).group(1)
+            f2 = os.path.join(d, f'final_{pid}.txt')
+            rows.append((name, ', '.join(files), notes, pid, verdict_of(open(fl).read(), pid), open(f2).read().strip() if os.path.exists(f2) else ''))
+    for lg in logs:
         if lg.endswith('.first.log'):
             continue
         pid = re.search(r'check_(\w+)\.log', lg).group(1)
